@@ -569,6 +569,9 @@ func UnmarshalVectorYAML(value *yaml.Node) (*GeneralizedType, error) {
 	return t, nil
 }
 
+// The largest number of dimensions accepted when `dimensions` is given as a count.
+const maxArrayDimensions = 64
+
 func UnmarshalArrayYAML(value *yaml.Node) (*GeneralizedType, error) {
 	if value.Kind != yaml.MappingNode {
 		return nil, parseError(value, "an !array must be specified with field `items` and optionally `dimensions`")
@@ -595,6 +598,13 @@ func UnmarshalArrayYAML(value *yaml.Node) (*GeneralizedType, error) {
 
 				if err := v.DecodeWithOptions(&ndims, yaml.DecodeOptions{KnownFields: true}); err != nil {
 					return nil, err
+				}
+
+				if ndims < 0 {
+					return nil, parseError(v, "the number of array dimensions cannot be negative")
+				}
+				if ndims > maxArrayDimensions {
+					return nil, parseError(v, "the number of array dimensions cannot exceed %d", maxArrayDimensions)
 				}
 
 				dims := make(ArrayDimensions, ndims)
